@@ -1014,8 +1014,9 @@ class TriaMesh:
             print(
                 f"Searched mesh after {count} flood iterations ({endt - startt} sec)."
             )
-            # get tria indices that need flipping:
-            idx = v.toarray() == -1
+            # get tria indices that need flipping (a seed column holds -3 for a
+            # triangle sharing all three edges with the seed, so test the sign):
+            idx = v.toarray() < 0
             idx = idx.reshape(-1)
             tnew = self.t
             tnew[np.ix_(idx, [1, 0])] = tnew[np.ix_(idx, [0, 1])]
